@@ -8,6 +8,7 @@ package main
 // session are not paired (their outcome legitimately depends on their order).
 
 import (
+	"errors"
 	"fmt"
 	"sort"
 	"strconv"
@@ -38,14 +39,27 @@ func ccSessView(s *session.Session, presented string) string {
 	return fmt.Sprintf("id=%s fresh=%v data=%v", class, s.Fresh(), kv)
 }
 
-func ccBuildSession(api string, injected bool) func() fasthttp.RequestHandler {
+// ccWarmups: histories that precede the two requests in flight, each containing ONE storage call that fails
+// (the storage answers an error once) on a different path of the store / middleware — the error branches are where
+// a session object is released, and a release too many or too few only shows when two later requests overlap.
+// "" is the plain warm-up. All of them run on the injected storage with an absolute timeout configured.
+var ccWarmups = []string{"abs-getbyid-delete-fails", "getbyid-get-fails", "destroy-delete-fails", "save-set-fails",
+	"load-get-fails", "byid-delete-fails", "abs-request-delete-fails"}
+
+func ccBuildSession(api string, injected bool, warm ...string) func() fasthttp.RequestHandler {
 	return func() fasthttp.RequestHandler {
 		session.VerifResetPools()
 		counter := 0
 		sc := session.Config{IdleTimeout: 30 * time.Minute, KeyLookup: "cookie:" + cookieName,
 			KeyGenerator: func() string { counter++; return "s" + strconv.Itoa(counter) }}
+		var st *ccStorage
 		if injected {
-			sc.Storage = &ccStorage{data: map[string][]byte{}}
+			st = &ccStorage{data: map[string][]byte{}}
+			sc.Storage = st
+		}
+		if len(warm) > 0 {
+			// (the injected storage keeps no TTL, so only the absolute deadline ends a session here)
+			sc.IdleTimeout, sc.AbsoluteTimeout = 10*time.Second, 12*time.Second
 		}
 		mw, store := session.NewWithStore(sc)
 		app := fiber.New()
@@ -115,15 +129,76 @@ func ccBuildSession(api string, injected bool) func() fasthttp.RequestHandler {
 			fctx.Init(rq, nil, nil)
 			h(&fctx)
 		}
+		if len(warm) > 0 {
+			one := func(id, act string) {
+				defer func() { _ = recover() }() // the middleware panics when the store cannot load (a server recovers)
+				var fctx fasthttp.RequestCtx
+				rq := fasthttp.AcquireRequest()
+				rq.Header.SetMethod("GET")
+				rq.SetRequestURI("http://app.test/" + api)
+				rq.Header.SetCookie(cookieName, id)
+				rq.Header.Set("X-Act", act)
+				rq.Header.Set("X-K", "k3")
+				rq.Header.Set("X-V", "W")
+				fctx.Init(rq, nil, nil)
+				h(&fctx)
+			}
+			switch warm[0] {
+			case "abs-getbyid-delete-fails":
+				verifrt.Advance(13 * time.Second)
+				st.failNext = "delete"
+				if sess, err := store.GetByID("s1"); err == nil {
+					sess.Release()
+				}
+			case "getbyid-get-fails":
+				st.failNext = "get"
+				if sess, err := store.GetByID("s1"); err == nil {
+					sess.Release()
+				}
+			case "destroy-delete-fails":
+				st.failNext = "delete"
+				one("s2", "destroy")
+			case "save-set-fails":
+				st.failNext = "set"
+				one("s1", "set")
+			case "load-get-fails":
+				st.failNext = "get"
+				one("s1", "get")
+			case "byid-delete-fails":
+				st.failNext = "delete"
+				_ = store.Delete("s2")
+			case "abs-request-delete-fails":
+				verifrt.Advance(13 * time.Second)
+				st.failNext = "delete"
+				one("s1", "get")
+			}
+			st.failNext = ""
+		}
 		return h
 	}
 }
 
 // map-based storage that yields at every call (its own scheduling points; keeps the key strings it is given)
-type ccStorage struct{ data map[string][]byte }
+type ccStorage struct {
+	data     map[string][]byte
+	failNext string // the next call of this kind answers an error (once)
+}
+
+var errCCStorage = errors.New("storage unavailable")
+
+func (s *ccStorage) fails(kind string) bool {
+	if s.failNext == kind {
+		s.failNext = ""
+		return true
+	}
+	return false
+}
 
 func (s *ccStorage) Get(key string) ([]byte, error) {
 	verifrt.YieldOn("storage.get", s)
+	if s.fails("get") {
+		return nil, errCCStorage
+	}
 	v, ok := s.data[key]
 	if !ok {
 		return nil, nil
@@ -132,11 +207,17 @@ func (s *ccStorage) Get(key string) ([]byte, error) {
 }
 func (s *ccStorage) Set(key string, val []byte, _ time.Duration) error {
 	verifrt.YieldOn("storage.set", s)
+	if s.fails("set") {
+		return errCCStorage
+	}
 	s.data[strings.Clone(key)] = append([]byte(nil), val...)
 	return nil
 }
 func (s *ccStorage) Delete(key string) error {
 	verifrt.YieldOn("storage.delete", s)
+	if s.fails("delete") {
+		return errCCStorage
+	}
 	delete(s.data, key)
 	return nil
 }
@@ -210,6 +291,28 @@ func runConcurrentSessions(r *core.Run) {
 			scs = append(scs, ccpair.Scenario{Name: name, Build: ccBuildSession(api, injected), Reqs: reqs, Observe: ccObserveSession, Unordered: r.Quick(),
 				Skip: func(a, b string) bool { return client(a) == client(b) }})
 		}
+	}
+	// after a history with one failing storage call (see ccWarmups): fresh, forged and returning clients overlap
+	var faulty []ccpair.Scenario
+	for _, api := range []string{"mw", "st"} {
+		for wi, w := range ccWarmups {
+			if r.Quick() && (api == "st") != (wi%2 == 1) {
+				continue // quick alternates the API over the warm-ups; thorough runs both on each
+			}
+			reqs := []ccpair.Req{
+				{Name: "A-get", Make: mk(api, "s1", "get", "", "")},
+				{Name: "B-set", Make: mk(api, "s2", "set", "k2", "B2")},
+				{Name: "M-forged-get", Make: mk(api, "s9", "get", "", "")},
+				{Name: "N-nocookie-set", Make: mk(api, "", "set", "k1", "N1")},
+			}
+			faulty = append(faulty, ccpair.Scenario{Name: api + "/injected+" + w, Build: ccBuildSession(api, true, w), Reqs: reqs, Observe: ccObserveSession,
+				Unordered: r.Quick(), Skip: func(a, b string) bool { return client(a) == client(b) }})
+		}
+	}
+	if r.Quick() {
+		ccpair.Run(r, "concurrent", faulty, 1)
+	} else {
+		ccpair.Run(r, "concurrent", faulty, 2)
 	}
 	if r.Quick() {
 		// preemption bound 2 on the middleware API with the yielding storage, bound 1 on the other scenarios
